@@ -128,6 +128,14 @@ def run_programs(ctx, n_random, targeted, preds, per_shard=40):
 
 def tie_model(ctx, progs, results):
     """model vs implementation; needs a buildable Gen (caller checks)."""
+    # "may reject" texts (a hand-written text whose MEANING is the surface term; the library may refuse the text) are
+    # never part of the tie in a normal run; a --replay of such a case must not put them there either
+    MAY_REJECT = {"text-variant", "plain-left-operand", "plain-number-seed"}
+    keep = [i for i, p in enumerate(progs) if not ("text" in p and MAY_REJECT & set(p.get("tags") or []))]
+    if len(keep) < len(progs):
+        progs, results = [progs[i] for i in keep], [results[i] for i in keep]
+        if not progs:
+            return []
     out, errors = progrun.eval_over_cases(ctx, ctx.prop.lower() + "_tie", IMPORTS, progs, results, [AGREE])
     if errors:
         ctx.broken.append(dict(kind="correspondence", what="model evaluation failed", detail=errors[0][1]))
